@@ -162,6 +162,43 @@ def _declared_default(ctx, cls: str, field: str):
     return _NODEFAULT
 
 
+def _guard_truth(t: ast.AST, field: str, value):
+    """truth of a guard at `<x>.field == value`: comparisons of the field with literals, `is (not) None`, bare truthiness, not / and / or;
+    None when the test consults anything else"""
+    import operator as op
+    ops = {ast.Lt: op.lt, ast.LtE: op.le, ast.Gt: op.gt, ast.GtE: op.ge, ast.Eq: op.eq, ast.NotEq: op.ne, ast.Is: op.is_, ast.IsNot: op.is_not}
+    unset = object()
+
+    def val(e):
+        if isinstance(e, ast.Attribute) and unparse(e).split(".", 1)[-1] == field:
+            return value
+        try:
+            return ast.literal_eval(e)
+        except Exception:
+            return unset
+
+    def go(e):
+        if isinstance(e, ast.UnaryOp) and isinstance(e.op, ast.Not):
+            r = go(e.operand)
+            return None if r is None else not r
+        if isinstance(e, ast.BoolOp):
+            rs = [go(v) for v in e.values]
+            if any(r is None for r in rs):
+                return None
+            return all(rs) if isinstance(e.op, ast.And) else any(rs)
+        if isinstance(e, ast.Compare):
+            vs = [val(x) for x in [e.left] + e.comparators]
+            if any(v is unset for v in vs) or any(type(o) not in ops for o in e.ops):
+                return None
+            try:
+                return all(ops[type(o)](a, b) for o, a, b in zip(e.ops, vs, vs[1:]))
+            except TypeError:                      # None < 0: the guard itself raises at the sentinel — it does not stop it
+                return True
+        v = val(e)
+        return None if v is unset else bool(v)
+    return go(t)
+
+
 def rule_r4(ctx) -> List[R.Inst]:
     M = ctx.M
     insts = []
@@ -185,13 +222,35 @@ def rule_r4(ctx) -> List[R.Inst]:
                 dv = _declared_default(ctx, cls, f)
                 if dv is not _NODEFAULT and (dv is None or (isinstance(dv, (int, float)) and not isinstance(dv, bool) and dv < 0)):
                     guarded = f in getattr(sc, "guarded", set())      # (a None-guard inside dataclasses.replace(..): rate_model)
+                    wrong = None
                     if ("reamber." + got[2]) in M.funcs:
                         for n in ast.walk(M.nfn("reamber." + got[2]).node):      # (the model interprets the normal form)
-                            if isinstance(n, ast.If) and any(x is got[1] for b in n.body for x in ast.walk(b)) and \
-                                    f in unparse(inline_locals(M.nfn("reamber." + got[2]).node, n.test, kinds=(ast.Compare, ast.BoolOp, ast.Attribute))):
-                                guarded = True
+                            if isinstance(n, ast.If) and any(x is got[1] for b in n.body for x in ast.walk(b)):
+                                t = inline_locals(M.nfn("reamber." + got[2]).node, n.test, kinds=(ast.Compare, ast.BoolOp, ast.Attribute))
+                                if f not in unparse(t):
+                                    continue
+                                # the guard is a comparison of the field with constants: its truth at the sentinel and at real times
+                                # (finite table over the orderings; A7).  It must let every real time through and stop the sentinel.
+                                real = [1, 10 ** 9] if dv is not None else [-5.0, 5.0]
+                                at_s = _guard_truth(t, f, dv)
+                                at_r = [_guard_truth(t, f, v) for v in real]
+                                if at_s is None or any(a is None for a in at_r):
+                                    raise AnalysisError(f"C13.R4: the guard '{unparse(n.test)[:80]}' around the scaling of {cname}.{f} is not a "
+                                                        f"comparison of the field with constants: whether it separates {dv!r} from real times is not decided")
+                                if at_s or not all(at_r):
+                                    wrong = (n, at_s, [v for v, a in zip(real, at_r) if not a])
+                                else:
+                                    guarded = True
                     k2 = f"{cname}.rate:{f}:sentinel"
-                    if guarded:
+                    if wrong is not None:
+                        n, at_s, missed = wrong
+                        insts.append(R.viol("C13.R4", k2, gfile, n.lineno,
+                                            f"'{f}' is divided by the rate under the guard '{unparse(n.test)[:80]}', which "
+                                            + (f"lets the 'not set' value {dv!r} through" if at_s else "")
+                                            + (" and " if at_s and missed else "")
+                                            + (f"stops real times such as {missed[0]!r}: a set {f} keeps its old value while every note moves" if missed else ""),
+                                            construct=f"{cname}.{f} /= rate under a guard of the wrong polarity"))
+                    elif guarded:
                         insts.append(R.ok("C13.R4", k2, gfile, got[1].lineno, idiom=f"scaled only when it is not the sentinel {dv!r}"))
                     else:
                         insts.append(R.viol("C13.R4", k2, gfile, got[1].lineno,
